@@ -249,9 +249,12 @@ pub struct Stats {
     pub idle_checks: u64,
     pub entries_dropped: u64,
     pub lingering: u64,
+    pub events_validated: u64,
+    pub states_validated: u64,
 }
 
 pub struct RunOut {
+    pub drift: Vec<String>,
     pub obs: Vec<Obs>,
     pub stats: Stats,
     pub completed_ops: usize,
@@ -272,11 +275,187 @@ pub struct Checks {
     pub files: bool,
     /// full dumps before/after compactions (C07)
     pub dumps: bool,
+    /// path of the Lean model driver for trace validation (None = oracle checks only)
+    pub drv_path: Option<String>,
 }
 
 impl Default for Checks {
     fn default() -> Self {
-        Checks { shape: true, files: true, dumps: true }
+        Checks { shape: true, files: true, dumps: true, drv_path: None }
+    }
+}
+
+// ------------------------------------------------------------------------------------------
+// trace validation against the Lean LSM model
+
+fn ent_tok(e: &raindb::verif::Entry) -> String {
+    format!("{}/{}/{}/{}", hex(&e.0), e.1, if e.2 == 1 { "p" } else { "d" }, hex(&e.3))
+}
+fn ents_tok(es: &[raindb::verif::Entry]) -> String {
+    if es.is_empty() {
+        "_".into()
+    } else {
+        es.iter().map(ent_tok).collect::<Vec<_>>().join(",")
+    }
+}
+fn file_tok(f: &raindb::verif::FileDump, entries: Option<&Vec<raindb::verif::Entry>>) -> String {
+    format!(
+        "{}@{}/{}@{}/{}@{}",
+        f.number,
+        hex(&f.smallest.0),
+        f.smallest.1,
+        hex(&f.largest.0),
+        f.largest.1,
+        entries.map_or("_".to_string(), |e| ents_tok(e))
+    )
+}
+fn levels_tok(levels: &[Vec<raindb::verif::FileDump>], entries: &BTreeMap<u64, Vec<raindb::verif::Entry>>) -> String {
+    levels
+        .iter()
+        .map(|l| if l.is_empty() { "_".to_string() } else { l.iter().map(|f| file_tok(f, entries.get(&f.number))).collect::<Vec<_>>().join(";") })
+        .collect::<Vec<_>>()
+        .join("|")
+}
+fn brief(levels: &[Vec<raindb::verif::FileDump>]) -> Vec<Vec<u64>> {
+    levels
+        .iter()
+        .map(|l| {
+            let mut v: Vec<u64> = l.iter().map(|f| f.number).collect();
+            v.sort();
+            v
+        })
+        .collect()
+}
+fn parse_brief(s: &str) -> Vec<Vec<u64>> {
+    s.split('|')
+        .map(|l| {
+            let mut v: Vec<u64> = if l == "_" { vec![] } else { l.split(',').filter_map(|x| x.parse().ok()).collect() };
+            v.sort();
+            v
+        })
+        .collect()
+}
+
+/// Validate the recorded internal transitions against the model's step relation. Returns the
+/// model's level layout after the last event (to chain with the next batch of events).
+pub fn validate_events(drv: &mut crate::drv::Drv, events: &[Event], obs: &mut Vec<Obs>, stats: &mut Stats, at: usize, chain: &mut Option<Vec<Vec<u64>>>) {
+    for ev in events {
+        if std::env::var("VERIF_TRACE").is_ok() {
+            match ev {
+                Event::Flush { file, level, size, .. } => eprintln!("raw flush file={file} level={level} size={size}"),
+                Event::TrivialMove { file, level, .. } => eprintln!("raw move file={file} level={level}"),
+                Event::Compaction { level, inputs0, inputs1, outputs, .. } => eprintln!("raw compaction level={level} {:?}+{:?} -> {:?}", inputs0, inputs1, outputs),
+                _ => {}
+            }
+        }
+        let (levels_before, answer, kind): (&Vec<Vec<raindb::verif::FileDump>>, String, &str) = match ev {
+            Event::Flush { file, level, size, levels_before, entries } => {
+                if *size == 0 {
+                    continue;
+                }
+                let a = drv.ask(&format!("lsm.flush 0 {} {} {} {}", levels_tok(levels_before, &BTreeMap::new()), file, level, ents_tok(entries)));
+                (levels_before, a, "flush")
+            }
+            Event::TrivialMove { file, level, levels_before } => {
+                let a = drv.ask(&format!("lsm.move {} {} {}", levels_tok(levels_before, &BTreeMap::new()), file, level));
+                (levels_before, a, "trivial-move")
+            }
+            Event::Compaction { level, inputs0, inputs1, smallest_snapshot, last_sequence, levels_before, input_entries, output_entries, .. } => {
+                let emap: BTreeMap<u64, Vec<raindb::verif::Entry>> = input_entries.iter().cloned().collect();
+                let nums = |v: &Vec<u64>| if v.is_empty() { "_".to_string() } else { v.iter().map(|n| n.to_string()).collect::<Vec<_>>().join(",") };
+                let outs = if output_entries.is_empty() {
+                    "_".to_string()
+                } else {
+                    output_entries.iter().map(|(n, es)| format!("{}:{}", n, ents_tok(es))).collect::<Vec<_>>().join(";")
+                };
+                let kept: usize = output_entries.iter().map(|o| o.1.len()).sum();
+                let total: usize = input_entries.iter().map(|o| o.1.len()).sum();
+                stats.entries_dropped += (total - kept.min(total)) as u64;
+                let a = drv.ask(&format!(
+                    "lsm.compact {} {} {} {} {} {} {}",
+                    last_sequence,
+                    levels_tok(levels_before, &emap),
+                    level,
+                    nums(inputs0),
+                    nums(inputs1),
+                    smallest_snapshot,
+                    outs
+                ));
+                (levels_before, a, "compaction")
+            }
+            _ => continue,
+        };
+        if answer == "no-model" {
+            return;
+        }
+        if std::env::var("VERIF_TRACE").is_ok() {
+            eprintln!("event {kind} before={:?} -> {answer}", brief(levels_before));
+        }
+        stats.events_validated += 1;
+        if let Some(prev) = chain.as_ref() {
+            if prev != &brief(levels_before) {
+                obs.push(Obs { sig: "c10:version-changed-between-recorded-transitions".into(), what: format!("the files of the version before this {kind} ({:?}) are not what the previous transition left ({:?})", brief(levels_before), prev), at });
+            }
+        }
+        if let Some(rest) = answer.strip_prefix("ok ") {
+            *chain = Some(parse_brief(rest));
+        } else {
+            *chain = None;
+            let sig = match kind {
+                "flush" => "c07:flush-outside-the-verified-transition-relation",
+                "trivial-move" => "c07:trivial-move-outside-the-verified-transition-relation",
+                _ => "c07:compaction-outside-the-verified-transition-relation",
+            };
+            let detail = match ev {
+                Event::Compaction { level, inputs0, inputs1, smallest_snapshot, outputs, .. } => format!("level {level} inputs {:?} + {:?} smallest snapshot {smallest_snapshot} outputs {:?} on {:?}", inputs0, inputs1, outputs, brief(levels_before)),
+                Event::Flush { file, level, .. } => format!("table {file} to level {level} on {:?}", brief(levels_before)),
+                Event::TrivialMove { file, level, .. } => format!("table {file} from level {level} on {:?}", brief(levels_before)),
+                _ => String::new(),
+            };
+            obs.push(Obs { sig: sig.into(), what: format!("the {kind} the database performed ({detail}) does not satisfy the model's validity predicate, under which alone contents and invariant are proved to be preserved: {answer}"), at });
+        }
+    }
+}
+
+/// Check a quiescent state dump against the model: the executable invariant, and the model's read
+/// path on the dumped state against the real gets.
+pub fn validate_state(drv: &mut crate::drv::Drv, db: &DB, st: &StateDump, probes: &[(Vec<u8>, u64, Option<Vec<u8>>)], obs: &mut Vec<Obs>, stats: &mut Stats, drift: &mut Vec<String>, at: usize) {
+    let mut entries: BTreeMap<u64, Vec<raindb::verif::Entry>> = BTreeMap::new();
+    for l in &st.levels {
+        for f in l {
+            match db.verif_table_entries(f.number) {
+                Ok(es) => {
+                    entries.insert(f.number, es);
+                }
+                Err(_) => return,
+            }
+        }
+    }
+    let head = format!("{} {} {} {}", st.last_sequence, ents_tok(&st.mem), st.imm.as_ref().map_or("-".to_string(), |i| ents_tok(i)), levels_tok(&st.levels, &entries));
+    let a = drv.ask(&format!("lsm.inv {head}"));
+    if a == "no-model" {
+        return;
+    }
+    stats.states_validated += 1;
+    if a != "true" {
+        obs.push(Obs { sig: "c10:model-invariant-violated".into(), what: format!("the dumped state (levels {:?}) does not satisfy the invariant the read-path theorem needs (answer: {a})", brief(&st.levels)), at });
+        return;
+    }
+    if probes.is_empty() {
+        return;
+    }
+    let q = probes.iter().map(|(k, s, _)| format!("{}/{}", hex(k), s)).collect::<Vec<_>>().join(",");
+    let a = drv.ask(&format!("lsm.gets {head} {q}"));
+    let answers: Vec<&str> = a.split(' ').collect();
+    if answers.len() != probes.len() {
+        drift.push(format!("lsm.gets answered {} values for {} probes", answers.len(), probes.len()));
+        return;
+    }
+    for ((k, s, got), ans) in probes.iter().zip(answers.iter()) {
+        let g = got.as_ref().map_or("none".to_string(), |v| format!("v:{}", hex(v)));
+        if &g != ans {
+            drift.push(format!("model read path on the dumped state gives {ans} for get({}, {s}), the database returned {g}", hex(k)));
+        }
     }
 }
 
@@ -493,7 +672,7 @@ fn classify_lingering(d: &DB, fs: &SimFs, st: &StateDump, no_readers: bool, fobs
     if !d.verif_wait_idle(Duration::from_secs(20)) {
         return;
     }
-    let _ = raindb::verif::events_take(DB_PATH);
+    // the transitions of this pass stay in the event log and are validated by the next settle
     let st2 = d.verif_state();
     let mut again = vec![];
     check_files(fs, &st2, true, &mut again, at);
@@ -525,12 +704,12 @@ pub fn run_history(h: &History, checks: &Checks, fs: &SimFs) -> RunOut {
         Ok(d) => Some(d),
         Err(e) => {
             obs.push(Obs { sig: "c01:open-failed".into(), what: format!("DB::open on an empty filesystem failed: {e}"), at: 0 });
-            return RunOut { obs, stats, completed_ops: 0 };
+            return RunOut { drift: vec![], obs, stats, completed_ops: 0 };
         }
     };
     let wo = || WriteOptions::default();
 
-    let settle = |db: &DB, stats: &mut Stats, obs: &mut Vec<Obs>, at: usize| -> Option<StateDump> {
+    fn settle(db: &DB, stats: &mut Stats, obs: &mut Vec<Obs>, at: usize, drv: &mut Option<crate::drv::Drv>, chain: &mut Option<Vec<Vec<u64>>>) -> Option<StateDump> {
         if !db.verif_wait_idle(Duration::from_secs(20)) {
             obs.push(Obs { sig: "c09:background-work-never-finishes".into(), what: "background work still pending after 20 s".into(), at });
             return None;
@@ -539,7 +718,11 @@ pub fn run_history(h: &History, checks: &Checks, fs: &SimFs) -> RunOut {
         if let Some(b) = &st.bad_state {
             obs.push(Obs { sig: "c09:bad-database-state".into(), what: format!("the database recorded a background error without any injected fault: {b}"), at });
         }
-        for ev in raindb::verif::events_take(DB_PATH) {
+        let events = raindb::verif::events_take(DB_PATH);
+        if let Some(dr) = drv.as_mut() {
+            validate_events(dr, &events, obs, stats, at, chain);
+        }
+        for ev in events {
             match ev {
                 Event::Flush { .. } => stats.flushes += 1,
                 Event::TrivialMove { .. } => stats.trivial_moves += 1,
@@ -566,7 +749,10 @@ pub fn run_history(h: &History, checks: &Checks, fs: &SimFs) -> RunOut {
             }
         }
         Some(st)
-    };
+    }
+    let mut drv: Option<crate::drv::Drv> = checks.drv_path.as_ref().map(|p| crate::drv::Drv::spawn(p));
+    let mut chain: Option<Vec<Vec<u64>>> = None;
+    let mut drift: Vec<String> = vec![];
 
     for (i, op) in h.ops.iter().enumerate() {
         let d = match db.as_ref() {
@@ -724,7 +910,7 @@ pub fn run_history(h: &History, checks: &Checks, fs: &SimFs) -> RunOut {
                 let before = if checks.dumps { Some(full_dump(d, &oracle, &snaps)) } else { None };
                 let r: Range<Option<&[u8]>> = a.as_deref()..b.as_deref();
                 d.compact_range(r);
-                if let Some(st) = settle(d, &mut stats, &mut obs, i) {
+                if let Some(st) = settle(d, &mut stats, &mut obs, i, &mut drv, &mut chain) {
                     if checks.shape {
                         check_shape(d, &st, &mut obs, i);
                     }
@@ -735,7 +921,7 @@ pub fn run_history(h: &History, checks: &Checks, fs: &SimFs) -> RunOut {
                 }
             }
             Op::Idle => {
-                if let Some(st) = settle(d, &mut stats, &mut obs, i) {
+                if let Some(st) = settle(d, &mut stats, &mut obs, i, &mut drv, &mut chain) {
                     stats.idle_checks += 1;
                     if checks.shape {
                         check_shape(d, &st, &mut obs, i);
@@ -754,6 +940,26 @@ pub fn run_history(h: &History, checks: &Checks, fs: &SimFs) -> RunOut {
                             }
                         }
                     }
+                    if drv.is_some() {
+                        // probes: every oracle key at the latest state and at every live snapshot
+                        let mut probes: Vec<(Vec<u8>, u64, Option<Vec<u8>>)> = vec![];
+                        for k in oracle.keys().take(12) {
+                            probes.push((k.clone(), st.last_sequence, d.get(ReadOptions::default(), k).ok()));
+                        }
+                        for (sn, (sh, frozen)) in snaps.iter().zip(st.snapshots.iter()).map(|((_, v), q)| (*q, v)) {
+                            for k in frozen.keys().take(6) {
+                                probes.push((k.clone(), sn, d.get(ReadOptions { fill_cache: true, snapshot: Some(sh.clone()) }, k).ok()));
+                            }
+                        }
+                        // the reads above may have triggered a seek compaction: validate a fresh dump
+                        if let Some(st2) = settle(d, &mut stats, &mut obs, i, &mut drv, &mut chain) {
+                            if st2.levels == st.levels && st2.mem.len() == st.mem.len() {
+                                if let Some(dr2) = drv.as_mut() {
+                                    validate_state(dr2, d, &st2, &probes, &mut obs, &mut stats, &mut drift, i);
+                                }
+                            }
+                        }
+                    }
                 }
             }
             Op::Reopen(newcfg) => {
@@ -762,7 +968,7 @@ pub fn run_history(h: &History, checks: &Checks, fs: &SimFs) -> RunOut {
                 for (_, (s, _)) in std::mem::take(&mut snaps) {
                     d.release_snapshot(s);
                 }
-                let _ = settle(d, &mut stats, &mut obs, i);
+                let _ = settle(d, &mut stats, &mut obs, i, &mut drv, &mut chain);
                 let old = db.take().unwrap();
                 let dropped = std::panic::catch_unwind(std::panic::AssertUnwindSafe(move || drop(old)));
                 if dropped.is_err() {
@@ -771,9 +977,10 @@ pub fn run_history(h: &History, checks: &Checks, fs: &SimFs) -> RunOut {
                 }
                 cfg = newcfg.clone();
                 stats.reopens += 1;
+                chain = None; // recovery builds tables without recorded transitions
                 match DB::open(cfg.options(fs)) {
                     Ok(nd) => {
-                        if let Some(st) = settle(&nd, &mut stats, &mut obs, i) {
+                        if let Some(st) = settle(&nd, &mut stats, &mut obs, i, &mut drv, &mut chain) {
                             if checks.shape {
                                 check_shape(&nd, &st, &mut obs, i);
                             }
@@ -799,7 +1006,7 @@ pub fn run_history(h: &History, checks: &Checks, fs: &SimFs) -> RunOut {
     if let Some(d) = db.as_ref() {
         if obs.is_empty() {
             let at = h.ops.len();
-            if let Some(st) = settle(d, &mut stats, &mut obs, at) {
+            if let Some(st) = settle(d, &mut stats, &mut obs, at, &mut drv, &mut chain) {
                 if checks.shape {
                     check_shape(d, &st, &mut obs, at);
                 }
@@ -815,7 +1022,7 @@ pub fn run_history(h: &History, checks: &Checks, fs: &SimFs) -> RunOut {
                     // the reads of the dump may have triggered seek compactions: take a fresh
                     // state. Releasing snapshots does not by itself trigger deletion, so only
                     // report what must hold with readers possibly having pinned files until now.
-                    if let Some(st2) = settle(d, &mut stats, &mut obs, at) {
+                    if let Some(st2) = settle(d, &mut stats, &mut obs, at, &mut drv, &mut chain) {
                         check_files(fs, &st2, false, &mut obs, at);
                     }
                 }
@@ -834,7 +1041,7 @@ pub fn run_history(h: &History, checks: &Checks, fs: &SimFs) -> RunOut {
             obs.push(Obs { sig: "c09:panic-in-close".into(), what: "closing the database panicked".into(), at: h.ops.len() });
         }
     }
-    RunOut { obs, stats, completed_ops: completed }
+    RunOut { drift, obs, stats, completed_ops: completed }
 }
 
 fn check_get(got: &Result<Vec<u8>, raindb::RainDBError>, want: Option<&Vec<u8>>, k: &[u8], sig: &str, ctx: &str, at: usize, obs: &mut Vec<Obs>) {
